@@ -348,6 +348,21 @@ var optDefaults = map[string]string{"-t": ",", "-d": "\t", "-s": "both", "-k": "
 // neighbourOf prefers a value that shares its first byte with cur (a key that
 // is derived from part of a value cannot tell such neighbours apart).
 func neighbourOf(r *core.RNG, pool []string, cur string) string {
+	if cur != "" && r.Chance(1, 5) {
+		// the value with one byte changed: a byte that is not UTF-8 into
+		// another one that is not, or the last letter into the next
+		if i := strings.LastIndex(cur, "\\x"); i >= 0 && i+4 <= len(cur) {
+			if v, err := strconv.ParseUint(cur[i+2:i+4], 16, 8); err == nil {
+				nv := 0x80 + (int(v)-0x80+1+r.Intn(3))%0x40 // stays a continuation byte out of place, or a bare lead byte
+				if v >= 0xc0 {
+					nv = 0xc0 + (int(v)-0xc0+1+r.Intn(3))%0x40
+				}
+				return cur[:i] + fmt.Sprintf("\\x%02x", nv) + cur[i+4:]
+			}
+		} else if c := cur[len(cur)-1]; c >= 'a' && c < 'z' || c >= 'A' && c < 'Z' || c >= '0' && c < '9' {
+			return cur[:len(cur)-1] + string(c+1)
+		}
+	}
 	if cur != "" && r.Chance(1, 4) {
 		if a := aliasOf(r, cur); a != "" && a != cur {
 			return a
@@ -871,8 +886,11 @@ func inputEdit(r *core.RNG, file string) editSpec {
 			{Op: "replace", Old: "DEFINITION  ", Text: "DEFINITION  edited "},
 		}[r.Intn(4)]
 	}
-	if strings.HasSuffix(file, ".fasta") && r.Chance(1, 4) {
+	if strings.HasSuffix(file, ".fasta") && r.Chance(1, 3) {
 		// the same residues split differently into records
+		if r.Chance(1, 2) {
+			return editSpec{Op: "resplit"}
+		}
 		return editSpec{Op: "replace", At: 60, Old: "\n", Text: "\n>split here\n"}
 	}
 	switch r.Intn(9) {
